@@ -39,8 +39,8 @@ Proof.
     destruct r2 as [[wr path]| |]; cbn [bind]; [|eexists _, _; split; [reflexivity | apply frozen_e_refl; assumption]..].
     destruct (roll_new_dead w crit (c_append c) path H) as [r3 E3]. rewrite E3.
     destruct r3 as [roll| |]; cbn [bind]; [|eexists _, _; split; [reflexivity | apply frozen_e_refl; assumption]..].
-    assert (X : exists r4, match k with KNever => (Ok tt, w) | _ => cleanup_impl c w k (ns_filter ns) (naming_writes_direct nam) end = (r4, w)).
-    { destruct (cleanup_impl_dead c w k (ns_filter ns) (naming_writes_direct nam) H) as [r4 E4]. destruct k; eauto. }
+    assert (X : exists r4, match k with KNever => (Ok tt, w) | _ => cleanup_impl c w k (ns_filter ns) (if naming_writes_direct nam then Some path else None) end = (r4, w)).
+    { destruct (cleanup_impl_dead c w k (ns_filter ns) (if naming_writes_direct nam then Some path else None) H) as [r4 E4]. destruct k; eauto. }
     destruct X as [r4 E4]. rewrite E4.
     destruct r4; cbn [bind]; [|eexists _, _; split; [reflexivity | apply frozen_e_refl; assumption]..].
     eexists _, _. split; [reflexivity|].
@@ -64,7 +64,7 @@ Proof.
         let w2b := if okf then w2a else report EFlush w2a in
         let w3 := w_drop w2b wra in
         let roll' := reset_size_and_date w3 (rs_roll rs) path' in
-        let '(rc, w4) := cleanup_or_queue c w3 (rs_bg rs) (rs_cleanup rs) (ns_filter ns1) (ns_writes_direct ns1) in
+        let '(rc, w4) := cleanup_or_queue c w3 (rs_bg rs) (rs_cleanup rs) (ns_filter ns1) (if ns_writes_direct ns1 then Some path' else None) in
         let st' := Active (Some {| rs_naming := ns1; rs_roll := roll'; rs_cleanup := rs_cleanup rs; rs_bg := rs_bg rs |}) wr' path' in
         (match rc with Ok _ => Ok tt | Err => Err | Panic => Panic end, w4, st')
       | (Err, w2) => (Err, w2, Active (Some {| rs_naming := ns1; rs_roll := rs_roll rs; rs_cleanup := rs_cleanup rs; rs_bg := rs_bg rs |}) wr path)
@@ -78,7 +78,7 @@ Proof.
     destruct (open_log_file_dead c w (Some infix) H) as [r2 E2]. rewrite E2.
     destruct r2 as [[wr' path']| |]; try (eexists _, _, _; split; [reflexivity | apply frozen_e_refl; assumption]).
     destruct (w_flush_dead w wr H) as [wra Ef]. rewrite Ef. cbv beta iota zeta. rewrite w_drop_dead by assumption.
-    destruct (cleanup_or_queue_frozen_e c w (rs_bg rs) (rs_cleanup rs) (ns_filter ns1) (ns_writes_direct ns1) H) as [rc [w4 [Ec F4]]].
+    destruct (cleanup_or_queue_frozen_e c w (rs_bg rs) (rs_cleanup rs) (ns_filter ns1) (if ns_writes_direct ns1 then Some path' else None) H) as [rc [w4 [Ec F4]]].
     rewrite Ec. eexists _, _, _. split; [reflexivity | exact F4]. }
   destruct (rs_naming rs) as [ts [cur|] fmt|idx|idx].
   - destruct (creation_ts_dead c w cur true (Some ts) fmt H) as [r E]. rewrite E.
